@@ -80,6 +80,14 @@ static void run_type(const char* ty, bool exact, int den, bool allow_open, int N
     { I z(x); z.difference_assign(y); std::printf(",\"diff\":%s", ji(z).c_str()); }
     { I z(x); z.add_assign(z, z); std::printf(",\"addself\":%s", ji(z).c_str()); }     // aliasing
     { I z(x); z.mul_assign(z, y); std::printf(",\"mulalias\":%s", ji(z).c_str()); }
+    // destination aliased with the first / the second operand, for every binary operation
+    { I z(x); z.add_assign(z, y); std::printf(",\"add1\":%s", ji(z).c_str()); } { I z(y); z.add_assign(x, z); std::printf(",\"add2\":%s", ji(z).c_str()); }
+    { I z(x); z.sub_assign(z, y); std::printf(",\"sub1\":%s", ji(z).c_str()); } { I z(y); z.sub_assign(x, z); std::printf(",\"sub2\":%s", ji(z).c_str()); }
+    { I z(y); z.mul_assign(x, z); std::printf(",\"mul2\":%s", ji(z).c_str()); }
+    { I z(x); z.div_assign(z, y); std::printf(",\"div1\":%s", ji(z).c_str()); } { I z(y); z.div_assign(x, z); std::printf(",\"div2\":%s", ji(z).c_str()); }
+    { I z(x); z.sub_assign(z, z); std::printf(",\"subself\":%s", ji(z).c_str()); } { I z(x); z.mul_assign(z, z); std::printf(",\"mulself\":%s", ji(z).c_str()); }
+    { I z(y); z.join_assign(x, z); std::printf(",\"join3\":%s", ji(z).c_str()); } { I z(y); z.intersect_assign(x, z); std::printf(",\"meet3\":%s", ji(z).c_str()); }
+    { I z(x); z.neg_assign(z); std::printf(",\"negself\":%s", ji(z).c_str()); }
     { I z(x); mpq_class k(kn, kd); k.canonicalize(); Relation_Symbol rs = rel == 0 ? LESS_OR_EQUAL : rel == 1 ? LESS_THAN : rel == 2 ? GREATER_OR_EQUAL : rel == 3 ? GREATER_THAN : EQUAL;
       z.add_constraint(i_constraint(rs, k)); std::printf(",\"rel\":\"%s\",\"kn\":%ld,\"kd\":%ld,\"refine\":%s", REL[rel], kn, kd, ji(z).c_str()); }
     std::printf(",\"contains\":%s,\"strictly_contains\":%s,\"disjoint\":%s,\"eq\":%s,\"bounded\":%s,\"singleton\":%s,\"hasint\":%s",
